@@ -46,10 +46,12 @@ namespace occa {
       void clear();
 
       void addRef(entry_t *entry);
+      // Both return needsFree() as it is right after the removal (in the
+      // sharable build: evaluated before the ring's lock is released)
     #if OCCA_THREAD_SHARABLE_ENABLED
-      void removeRef(entry_t *entry, const bool threadLock = true);
+      bool removeRef(entry_t *entry, const bool threadLock = true);
     #else
-      void removeRef(entry_t *entry);
+      bool removeRef(entry_t *entry);
     #endif
 
       bool needsFree() const;
